@@ -659,10 +659,136 @@ C01M = dict(
     ],
 )
 
-TABLE_MUT = {"C01": C01M, "C05": C05M, "C10": C10M, "C11": C11M, "C15": C15M, "C19": C19M}
+# --------------------------------------------------------------------------------------------------- C18 (fifth pass)
+_DSN2 = _DSN + ("ChiSquared", "Binomial", "DiscreteUniform")
+_dsT = lambda n: "Cv.DS.DiscreteUniform" if n == "DiscreteUniform" else "Cv.DS.%s α" % n
+_ds2 = lambda n: ("adt", n, _dsT(n))
+_DST2 = dict(_DST, ChiSquared=[("dof", "nat"), ("sampler", _ds2("Gamma"))], Binomial=[("n", "nat"), ("p", "f64")],
+             DiscreteUniform=[("lower", "int"), ("upper", "int")])
+_DFILE2 = dict(_DFILE, ChiSquared="chi_squared.rs", Binomial="binomial.rs", DiscreteUniform="discreteuniform.rs")
+_SETTERS = {"Bernoulli": ["set_p"], "Beta": ["set_alpha", "set_beta"], "Binomial": ["set_n", "set_p"], "ChiSquared": ["set_dof"],
+            "DiscreteUniform": ["set_lower", "set_upper"], "Exponential": ["set_lambda"], "Gamma": ["set_alpha", "set_beta"],
+            "Gumbel": ["set_mu", "set_beta"], "Normal": ["set_mu", "set_sigma"], "Pareto": ["set_alpha", "set_minval"],
+            "Poisson": ["set_lambda"], "T": ["set_dof"], "Uniform": ["set_lower", "set_upper"]}
+_camel = lambda m: re.sub(r"_(\w)", lambda k: k.group(1).upper(), m)
+_NEWGEN = ("ChiSquared", "Binomial", "DiscreteUniform")      # constructors generated in THIS table
+
+
+def _c18o(n, **kw):
+    newfn = lambda k: ("%s_new" % k) if k in _NEWGEN else "Cv.DS.%s.new" % k
+    o = dict(mut=True, int_arith=True, adts={k: _dsT(k) for k in _DSN2}, struct_types=_DST2,
+             struct_mk={k: "Cv.DS.%s.mk" % k for k in _DSN2},
+             fns=dict({k + "::new": newfn(k) for k in _DSN2}, **{"Self::new": newfn(n)}),
+             fn_ret=dict({k + "::new": _ds2(k) for k in _DSN2}, **{"Self::new": _ds2(n)}),
+             opt_fns=tuple(k + "::new" for k in _DSN2) + ("Self::new",),
+             f64_to_usize="Cv.DS.CastInt.toU64 {0}", f64_to_i64="Cv.DS.CastInt.toI64 {0}")
+    o.update(kw)
+    return o
+
+
+def _c18_functions():
+    out = []
+    for n in _NEWGEN:
+        out.append((_D + _DFILE2[n], n + "::new", O(n + "_new", **_c18o(n))))
+    for n in sorted(_SETTERS):
+        for m in _SETTERS[n]:
+            out.append((_D + _DFILE2[n], "%s::%s" % (n, m), O("%s_%s" % (n, _camel(m)), **_c18o(n, state_fn=True))))
+        out.append((_D + _DFILE2[n], n + "::update", O(n + "_update", **_c18o(
+            n, state_fn=True, state_calls={m: "%s_%s" % (n, _camel(m)) for m in _SETTERS[n]}))))
+        out.append((_D + _DFILE2[n], n + "::default", O(n + "_default", **_c18o(n))))
+    return out
+
+
+C18M = dict(
+    imports=["Compute.Model.Scalar", "Compute.Model.DistState"],
+    variables=ALL_CLASSES + " [Inhabited α] [Cv.DS.CastInt α]",
+    about="src/distributions/*.rs (13 univariate distributions): every `set_*` and `Distribution1D::update` as a STATE TRANSFORMER\n"
+          "`S → args → S × Bool` (new state, panicked; a panic keeps the assignments made before it — the convention of\n"
+          "Model/DistState.lean), `impl Default` (= `new` at the default parameters), and the constructors with integer parameters\n"
+          "(`ChiSquared::new(usize)`, `Binomial::new(u64, f64)`, `DiscreteUniform::new(i64, i64)`; `usize`/`u64` are `Nat`, `i64` is `Int`).\n"
+          "`if c { panic!() }` / `assert!(c)` are `if c then (d, true) else ..` / `if c then .. else (d, true)`; `self.f = e` is\n"
+          "`{ d with f := e }` (a panicking sub-constructor in `e` is a `match`); `self.set_a(x).set_b(y)` calls the generated setters left\n"
+          "to right and stops at the first that panics; `*self = Self::new(..)` replaces the state; `params[k]` is `match ps[k]? with`\n"
+          "(`none` = index panic), evaluated where the source evaluates it; `x as usize` / `as u64` / `as i64` of an f64 are\n"
+          "`Cv.DS.CastInt.toU64` / `toI64`.",
+    functions=_c18_functions(),
+)
+
+def _fc(file, fn, leanname, kw=None, **frag):
+    return (_D + file, fn, O(leanname, mut=True, int_arith=True, closure=frag, **(kw or {})))
+
+
+C03M = dict(
+    imports=["Compute.Model.Scalar", "Compute.Model.Samplers"],
+    variables=ALL_CLASSES + " [Inhabited α] [Cv.FiniteTest α]",
+    about="src/distributions/{poisson,binomial,t,beta}.rs: the ROUTING conditions of `Poisson::sample` (`lambda < 10.`) and\n"
+          "`Binomial::sample` (the end-point test `|p - 1| <= EPSILON`, the flip `p > 0.5`, the flipped probability, the threshold\n"
+          "`p * n <= 30.`) as Boolean / scalar FRAGMENTS, and the compositions `T::sample`, `Beta::sample` as functions of the draws of\n"
+          "their sub-samplers: `Normal::default().sample()` is the parameter `z`, `Gamma::new(a, b).sample()` is `gsample a b`,\n"
+          "`self.alpha_gen.sample()` / `self.beta_gen.sample()` are `x` / `y`, `alea::f64()` is `u`.",
+    functions=[
+        _fc("poisson.rs", "Poisson::sample", "Poisson_route", kind="cond", index=0, free={"self.lambda": "lambda"}),
+        _fc("binomial.rs", "Binomial::sample", "Binomial_edge", kw=dict(consts={"f64::EPSILON": "Cv.epsC"}), kind="cond", index=1,
+            free={"self.p": "p"}),
+        _fc("binomial.rs", "Binomial::sample", "Binomial_switch", kind="let", name="switch", bool=True, free={"self.p": "p"}),
+        _fc("binomial.rs", "Binomial::sample", "Binomial_p", kind="let", name="p",
+            free={"self.p": "p", "switch": ("switch", "bool")}),
+        _fc("binomial.rs", "Binomial::sample", "Binomial_small", kind="cond", index=3,
+            free={"p": "p'", "self.n": ("n", "nat")}),
+        (_D + "t.rs", "T::sample", O("T_sample", mut=True, extra_binders=[("z", "α"), ("gsample", "α → α → α")],
+                                     field_calls={"Normal::default.sample": ("z", "f64"),
+                                                  "Gamma::new.sample": ("(gsample {0} {1})", "f64")})),
+        (_D + "beta.rs", "Beta::sample", O("Beta_sample", mut=True, self_fields=["alpha", "beta"], fns={"alea::f64": "u"},
+                                           extra_binders=[("x", "α"), ("y", "α"), ("u", "α")],
+                                           field_calls={"alpha_gen.sample": ("x", "f64"), "beta_gen.sample": ("y", "f64")})),
+    ],
+)
+
+_AR = "src/timeseries/autoregressive.rs"
+_ARO = dict(mut=True, int_arith=True, fns={"dot": "Cv.dot8"}, self_fields=["coeffs", "intercept"])
+C13M = dict(
+    imports=["Compute.Model.Scalar", "Compute.Model.Kernels", "Compute.Model.Timeseries"],
+    variables=MUT_CLASSES,
+    about="src/timeseries/autoregressive.rs: `AR::predict_one_centred` (both branches: a history at least as long as the coefficient\n"
+          "vector, and the SHORT-history branch `dot(data, &coeffs[coeff_len - n..])`) and `AR::predict_one` as whole functions of the\n"
+          "fields `coeffs`, `intercept`.  The checked `usize` subtractions `n - coeff_len` / `coeff_len - n` are guards inside their\n"
+          "branches (`none` = panic); `a.saturating_sub(b)` is the truncated subtraction of `Nat`; `dot` is `Cv.dot8` (length assert not\n"
+          "modelled); `self.predict_one_centred(..)` is the generated definition.",
+    functions=[
+        (_AR, "AR::predict_one_centred", O("predictOneCentred", **_ARO)),
+        (_AR, "AR::predict_one", O("predictOne", self_methods={"predict_one_centred": ("predictOneCentred", "f64", True)},
+                                   **_ARO)),
+    ],
+)
+
+C14M = dict(
+    imports=["Compute.Model.Scalar", "Compute.Model.Poly"],
+    variables=MUT_CLASSES,
+    about="src/predict/polynomial.rs: `PolynomialRegressor::fit` as a whole function of the field `coef` and the data; its VALUE is the new\n"
+          "`coef` (`self.update(&coeffs)` stores its argument: `update` is `self.coef = params.to_owned()`).  `vandermonde`, `xtx`,\n"
+          "`invert_matrix`, `matmul` are the model functions `Cv.Poly.vandermonde`, `Cv.xtx`, `Cv.invertMatrix`, `Cv.matmul` (`none` = panic),\n"
+          "themselves tied in SrcTieC15Mut / C05Mut2 / C01Mut.",
+    functions=[
+        ("src/predict/polynomial.rs", "PolynomialRegressor::fit", O(
+            "fit", mut=True, int_arith=True, mut_self_value=True, self_fields=["coef"], type_alias={"&mutSelf": "Vec<f64>"},
+            self_methods={"update": ("{0}", "vec", False)},
+            fns={"vandermonde": "Cv.Poly.vandermonde", "xtx": "Cv.xtx", "invert_matrix": "Cv.invertMatrix", "matmul": "Cv.matmul"},
+            fn_ret={"vandermonde": "vec", "xtx": "vec", "invert_matrix": "vec", "matmul": "vec"},
+            opt_fns=("xtx", "invert_matrix", "matmul"))),
+    ],
+)
+
+TABLE_MUT = {"C01": C01M, "C03": C03M, "C13": C13M, "C14": C14M, "C18": C18M, "C05": C05M, "C10": C10M, "C11": C11M, "C15": C15M, "C19": C19M}
 
 # theorems of Compute/Props/SrcTieCxxMut.lean the check must find
 REQUIRED_MUT = {
+    "C14": ["Cv.SrcTie.C14Mut.fit_eq"],
+    "C13": ["Cv.SrcTie.C13Mut.predictOneCentred_eq", "Cv.SrcTie.C13Mut.predictOne_eq"],
+    "C03": ["Cv.SrcTie.C03Mut." + n for n in ("Poisson_sample_route", "Binomial_sample_routes", "T_sample_eq", "Beta_sample_eq")],
+    "C18": (["Cv.SrcTie.C18Mut.%s_new_eq" % n for n in _NEWGEN]
+            + ["Cv.SrcTie.C18Mut.%s_%s_eq" % (n, _camel(m)) for n in sorted(_SETTERS) for m in _SETTERS[n]]
+            + ["Cv.SrcTie.C18Mut.%s_update_eq" % n for n in sorted(_SETTERS)]
+            + ["Cv.SrcTie.C18Mut.%s_default_eq" % n for n in sorted(_SETTERS)]),
     "C01": ["Cv.SrcTie.C01Mut.solve_eq", "Cv.SrcTie.C01Mut.solveSys_eq", "Cv.SrcTie.C01Mut.invertMatrix_eq"],
     "C05": ["Cv.SrcTie.C05Mut.matmulLoops_eq"],
     "C10": ["Cv.SrcTie.C10Mut.adamCoord_eq", "Cv.SrcTie.C10Mut.sgdCoord_eq", "Cv.SrcTie.C10Mut.sgdUpd_cons"],
